@@ -6,15 +6,23 @@
    rows, read by an independent csv.reader and decoded row by row, gives exactly the rows, in
    order, for every dialect of the family, either key-prefix style per row (mixed in one
    file), all strings (C04_file_decodes); and because a complete row returns the reader to its
-   start state, appending to the file is sound (C04_append_decodes).  That the plan's target
-   is the database's new logical contents is DB.v's step, tied by correspondence. *)
+   start state, appending to the file is sound (C04_append_decodes).  C04_operation_leaves_new_contents
+   joins the two models: for EVERY operation of the API from EVERY state, the plan derived from the
+   database model's own step has the model's new rows as its target, so the completed script leaves
+   exactly the database's new logical contents on disk (for inserts: stored field values not NaN). *)
 From Coq Require Import List ZArith NArith Bool.
-From TF Require Import Base Query Index DB Codec Csv Text IO proofs.CodecP proofs.CsvP proofs.TextP proofs.IOP.
+From TF Require Import Base Query Index DB Codec Csv Text IO proofs.CodecP proofs.CsvP proofs.TextP proofs.IOP proofs.PlanP.
 Import ListNotations.
 
 Theorem C04_disk_is_target : forall old p,
   let w := run_steps (world_of old) (script_of old p) in w_disk w = plan_target old p /\ clean w.
 Proof. exact run_script_complete. Qed.
+Theorem C04_operation_leaves_new_contents : forall E C norm s o,
+  (is_insert o = true -> forallb nan_free_point (st_rows s) = true) ->
+  let old := st_rows s in let new := st_rows (fst (step E C norm s o)) in
+  let w := run_steps (world_of old) (script_of old (plan_of o old new)) in
+  w_disk w = new /\ clean w.
+Proof. exact file_after_operation. Qed.
 Theorem C04_file_decodes : forall fmt_time parse_time fmt_num parse_num,
   (forall t, parse_time (fmt_time t) = Some t) -> (forall x, parse_num (fmt_num x) = Some x) ->
   (forall x, str_eqb (fmt_num x) s_none = false) ->
@@ -34,6 +42,7 @@ Theorem C04_csv_write_app : forall D r1 r2, csv_write D (r1 ++ r2) = csv_write D
 Proof. exact csv_write_app. Qed.
 
 Print Assumptions C04_disk_is_target.
+Print Assumptions C04_operation_leaves_new_contents.
 Print Assumptions C04_file_decodes.
 Print Assumptions C04_append_decodes.
 Print Assumptions C04_csv_write_app.
